@@ -276,3 +276,15 @@ Definition w_ac_chain : chain := mkChain [w_x0] [] [(501, w_lb)].
 
 Lemma w_ac_accept : verify_ac w_O fixed w_yts w_ac_chain [w_x32768] w_ac_target = HV Accept.
 Proof. vm_compute. reflexivity. Qed.
+
+(* the header under verification (or any header with the same hash) is already canonical
+   at its height - stored by an earlier pass that did not look at the votes: the honest
+   header is still accepted, the same-hash header carrying only the house member's vote
+   is still rejected *)
+Definition w_x100_stored : xheader := mkXH (mkH 100 0 2 1 None None None 0) 1000 true 0 false.
+Definition w_chain_known : chain := mkChain [w_x0; w_x84; w_x92; w_x99; w_x100_stored] [] [(501, w_lb)].
+Lemma w_same_hash_canonical :
+  by_number w_chain_known 100 = Some w_x100_stored /\ h_hash (x_h w_x100_stored) = h_hash (x_h w_target) /\
+  verify_header w_O fixed 2000 w_yts w_chain_known [] w_target true = HV Accept /\
+  verify_header w_O fixed 2000 w_yts w_chain_known [] (mkXH (w_hdr w_cd_ok w_uv_house) 1000 true 0 false) true = HV EInvalidCD.
+Proof. repeat split; vm_compute; reflexivity. Qed.
